@@ -24,3 +24,7 @@ Proof. split; [reflexivity|vm_compute; discriminate]. Qed.
 Lemma tie_chunk_is_const : Z.of_N Gen_stream.SocketStream_MAX_IO_CHUNK = Gen_consts.STREAM_CHUNK
   /\ Z.of_N Gen_stream.PipeStream_MAX_IO_CHUNK = Gen_consts.STREAM_CHUNK.
 Proof. split; reflexivity. Qed.
+
+(* reading tolerates transient would-block conditions on pipes as on sockets (the [tol = true] instances of the theorems apply to both) *)
+Lemma tie_pipe_tolerant : Gen_stream.PipeStream_read_tolerates_wouldblock = true /\ Gen_stream.retry_errnos_are_again_wouldblock = true.
+Proof. split; reflexivity. Qed.
